@@ -429,7 +429,7 @@ fn locate(f: &Forest, d: &read::Dwarf<R<'_>>) -> Result<(Vec<(usize, usize, usiz
         let unit = d.unit(h).map_err(|e| format!("input-{}", rerr(&e)))?;
         let base = unit.header.offset().0;
         let hs = unit.header.header_size();
-        units.push((base, hs, unit.header.unit_length() + unit.header.length_including_self() - unit.header.unit_length() - hs));
+        units.push((base, hs, unit.header.length_including_self() - hs));
         let mut raw = unit.entries_raw(None).map_err(|e| format!("input-{}", rerr(&e)))?;
         let mut e = read::DebuggingInformationEntry::null();
         while !raw.is_empty() {
@@ -714,7 +714,7 @@ fn read_out(secs: &Secs) -> Result<OutDwarf, String> {
                 if a.name() == c::DW_AT_name || a.name() == c::DW_AT_sibling {
                     continue;
                 }
-                let mut lab = |o: usize, dang: &mut Vec<String>| -> String {
+                let lab = |o: usize, dang: &mut Vec<String>| -> String {
                     match labels.get(&o) {
                         Some(l) => l.clone(),
                         None => {
